@@ -139,6 +139,9 @@ func compareRaw(out []byte, mode int, w Want) (diffs []Diff, got Inst) {
 				add("ea", eaDev(g.Mem, wo.Mem), fmt.Sprintf("got %s want %s; decoded %s from % X", lfString(glf, gd), lfString(wlf, wd), got, out))
 			} else if g.Mem.AddrSize != wo.Mem.AddrSize {
 				add("addr_prefix", fmt.Sprintf("addrsize got:%d want:%d", g.Mem.AddrSize, wo.Mem.AddrSize), fmt.Sprintf("decoded %s from % X", got, out))
+			} else if gs, ws := defaultSegment(g.Mem.Base, g.Mem.Index, g.Mem.Scale, g.Mem.AddrSize), defaultSegment(wo.Mem.Base, wo.Mem.Index, wo.Mem.Scale, wo.Mem.AddrSize); gs != ws {
+				// the same sum of registers, but the register in the BASE role decides the default segment (SS for EBP/ESP/BP)
+				add("ea", fmt.Sprintf("base_role:%s_segment_for_%s", gs, ws), fmt.Sprintf("written base %q, encoded base %q: the address is taken relative to %s instead of %s; decoded %s from % X", wo.Mem.Base, g.Mem.Base, gs, ws, got, out))
 			}
 		}
 	}
@@ -186,6 +189,24 @@ func Compare(out []byte, mode int, w Want) ([]Diff, Inst) {
 		}
 	}
 	return diffs, got
+}
+
+// defaultSegment: the segment register an address uses when none is written. 32-bit addressing: SS iff the base is
+// EBP or ESP; 16-bit addressing: SS iff BP takes part.
+func defaultSegment(base, index string, scale int, addrSize int) string {
+	if base == "" && index != "" && scale <= 1 {
+		base, index = index, "" // a single unscaled register is the base
+	}
+	if addrSize == 16 {
+		if base == "BP" || index == "BP" {
+			return "SS"
+		}
+		return "DS"
+	}
+	if base == "EBP" || base == "ESP" {
+		return "SS"
+	}
+	return "DS"
 }
 
 func headHex(b []byte) string {
